@@ -1275,7 +1275,7 @@ fn main() -> std::process::ExitCode {
         "C07",
         "programs of 1-3 generated IL functions (1-6 blocks, all operation kinds, widths 1-128, both endiannesses, addressed instructions; classes: plain / broken guards / intrinsics / branches to instruction addresses in the same or another function / branch to a tiny amd64 function in executable memory) x initial states with missing scalars and memory holes, stepped up to 6-64 times in lock-step with a reference interpreter (Bv arithmetic, byte-map memory, successor = the edge whose guard is 1), comparing location, every scalar and the touched bytes after each step and fault kinds at the end; non-trivial = at least 3 steps including a load/store wider than 8 bits or a choice among >= 2 out-edges; distinct = (operation kinds executed, access widths, endianness, how the trace ended, generator class)",
         Box::new(|_t: Tier| from_tape(1600, decode)),
-        |t| t.pick(60_000, 3_000_000),
+        |t| t.pick(300_000, 10_000_000),
         check,
     );
     spec.render = render;
